@@ -647,10 +647,16 @@ fn create_doc_without_preceding_comment(
         ]);
       }
       if e.e2.precedence() == expression.precedence() {
-        // For the commutative operators, we can remove parentheses.
-        match e.operator {
-          expr::BinaryOperator::MINUS | expr::BinaryOperator::DIV | expr::BinaryOperator::MOD => {}
-          _ => {
+        // Parentheses around a right operand of the same level can only be removed when it applies
+        // the same associative operator: a + (b + c) == a + b + c, but a * (b / c) != a * b / c.
+        match (e.operator, e.e2.as_ref()) {
+          (
+            expr::BinaryOperator::PLUS
+            | expr::BinaryOperator::MUL
+            | expr::BinaryOperator::AND
+            | expr::BinaryOperator::OR,
+            expr::E::Binary(inner),
+          ) if inner.operator == e.operator => {
             return Document::concat(vec![
               create_doc_for_subexpression_considering_precedence_level(
                 heap,
@@ -664,6 +670,7 @@ fn create_doc_without_preceding_comment(
               create_doc(heap, comment_store, &e.e2),
             ]);
           }
+          _ => {}
         }
       }
       // Safest rule
